@@ -75,6 +75,24 @@ theorem insertJobs_idem (s : State) (b upd user : Nat) (specs : List JobSpec) :
       ((step s (.insertJobs b upd user specs)).1, (step s (.insertJobs b upd user specs)).2) :=
   Submission.insertJobs_idem s b upd user specs
 
+/-- A job bunch retried after ANY interleaving of other requests (other clients' updates, driver activity, …): the first
+job row still exists and the update's `start_job_id` is unchanged, so — as long as the update is still uncommitted, the
+batch not deleted and the first job's group not cancelled — the retry is answered `ok` and changes nothing. -/
+theorem insertJobs_retry_later (s : State) (ops : List Op) (b upd user : Nat) (first : JobSpec) (rest : List JobSpec)
+    (u : Update) (hu : findUpdate s b upd = some u) (hj : (findJob s b (first.relId + u.startJob - 1)).isSome) :
+    ∃ u', findUpdate (after s ops) b upd = some u' ∧ u'.startJob = u.startJob ∧ u'.startGroup = u.startGroup ∧
+      ∀ bt, findBatch (after s ops) b = some bt → bt.user = user → bt.deleted = false → u'.committed = false →
+        groupCancelled (after s ops) b (mkJob u' b first).group = false →
+        step (after s ops) (.insertJobs b upd user (first :: rest)) = (after s ops, .ok 0) := by
+  obtain ⟨u', h, -, -, -, a4, -, a6, -, -⟩ := findUpdate_run ops s hu
+  refine ⟨u', h, a4, a6, ?_⟩
+  intro bt hbt h1 h2 h3 hnc
+  have hj' : (findJob (after s ops) b (first.relId + u'.startJob - 1)).isSome := by
+    rw [a4]
+    exact foldl_inv (fun t => (findJob t b (first.relId + u.startJob - 1)).isSome)
+      (fun t op ht => findJob_isSome_step t op ht) ops s hj
+  exact insertJobs_dup_noop _ b upd user first rest u' bt h hbt h1 h2 h3 hnc hj'
+
 /-- no job row is duplicated: (batch_id, job_id) stays a key of `jobs` in every reachable state -/
 theorem jobs_never_duplicated {s : State} (h : Reachable s) : (s.jobs.map fun j => (j.batch, j.id)).Nodup :=
   (HailVerif.C07.reachable_inv h).1
@@ -212,7 +230,7 @@ theorem client_group_ids_agree (s : State) (b upd user : Nat) (specs : List Grou
     (hok : (step s (.insertGroups b upd user specs)).2 = .ok 0) :
     ∃ u new, findUpdate s b upd = some u ∧ (step s (.insertGroups b upd user specs)).1.groups = s.groups ++ new ∧
       new.map (·.id) = specs.map (fun sp => clientGroupId u.startGroup sp.relId) ∧ ∀ g ∈ new, g.batch = b := by
-  rcases insertGroups_cases s b upd user specs with ⟨e, he⟩ | ⟨_, _, u, _, new, _, hu, _, _, _, _, _, e, hn, hid⟩
+  rcases insertGroups_cases s b upd user specs with ⟨e, he⟩ | ⟨_, _, u, _, new, _, hu, _, _, _, _, _, e, hn, hid, -⟩
   · have : (insertGroups s b upd user specs).2 = .ok 0 := hok
     rw [he] at this; cases this
   · refine ⟨u, new, hu, ?_, hid, fun g hg => (hn g hg).1⟩
